@@ -5,7 +5,7 @@ import ast
 from fractions import Fraction
 from typing import Optional
 
-from ..absdom.poly import RF, NotPoly
+from ..absdom.poly import RF, NotPoly, to_rf
 from ..absdom.symtensor import NotSym, SymEval, Vec, binop, reduce_squares
 from ..flow import RAISE, attr_chain, dump, kwarg, paths
 from ..inline import expand_helpers
@@ -262,6 +262,13 @@ def r4_orientation(repo: Repo, rep):
             continue
         v = p.attrs.get("self.polygon")
         rep.check(R, v is not None and "orient(" in dump(v), init.site(), init.fq, "shapely polygons are re-oriented at construction (fixed quarter-turn is then outward)", dump(v)[:80], dump(v)[:80])
+    r4c_mesh_outward(repo, rep, R)
+
+
+def r4c_mesh_outward(repo: Repo, rep, R="R-C06-4b"):
+    if R == "R-C06-4b":
+        R = rep.rule("R-C06-4b", "a triangle mesh is made outward-facing at construction (mesh.fix_normals() on every path)", floor=1,
+                     why="a consistently inward-wound mesh has inward normals and a negative signed volume")
     tm = repo.cls(f"{DOM}.domain3D.trimesh_polyhedron.TrimeshPolyhedron")
     init = tm.methods.get("__init__")
     rep.saw(init)
@@ -369,7 +376,80 @@ def r6_edge_tests(repo: Repo, rep):
             rep.undecided(R, ci.module.relpath, ci.fq, "isclose edge tests in the normal computation", "none found: idiom not recognised")
 
 
+def _edge_tests(repo, ci, fi):
+    """set of (normal form of the tested coordinate over the barycentric pair X, Y; target value) of every isclose reached from `fi`,
+    helpers of the class inlined under their call-site bindings; None when something is not understood"""
+    from ..flow import subst
+    from ..inline import bind_args
+    out = set()
+
+    def atom(n):
+        if isinstance(n, ast.Subscript) and getattr(n, "_tuple_elt", False) and isinstance(n.value, ast.Call) and dump(n.value.func).endswith("_solve_lgs"):
+            return RF.atom("X" if n.slice.value == 0 else "Y")
+        return None
+
+    def const(n):
+        if isinstance(n, ast.Call) and attr_chain(n.func) in ("torch.tensor", "torch.as_tensor") and n.args:
+            n = n.args[0]
+        if isinstance(n, ast.Constant) and isinstance(n.value, (int, float)) and not isinstance(n.value, bool):
+            return float(n.value)
+        return None
+
+    def scan(expr, depth=0):
+        for c in ast.walk(expr):
+            if isinstance(c, ast.Call) and attr_chain(c.func) == "torch.isclose" and len(c.args) >= 2:
+                try:
+                    subj = to_rf(c.args[0], atom)
+                except NotPoly:
+                    return False
+                t = const(c.args[1])
+                if t is None:
+                    return False
+                out.add((repr(subj), t))
+        return True
+
+    def visit(fn, env, depth):
+        if depth > 3:
+            return True
+        ok = True
+        for p in paths(fn.node):
+            if p.ret is RAISE:
+                continue
+            vals = [e.value for e in p.events if e.value is not None]
+            for v in vals:
+                v = subst(v, env) if env else v
+                ok = scan(v) and ok
+                for c in ast.walk(v):
+                    if isinstance(c, ast.Call) and isinstance(c.func, ast.Attribute) and dump(c.func.value) == "self" and c.func.attr.startswith("_") and c.func.attr in ci.methods \
+                            and ("close" in c.func.attr or "local_normal" in c.func.attr):
+                        tgt = ci.methods[c.func.attr]
+                        b = bind_args(tgt, c)
+                        if b is None:
+                            return False
+                        ok = visit(tgt, b, depth + 1) and ok
+        return ok
+    return out if visit(fi, {}, 0) else None
+
+
+def r7_edge_agreement(repo: Repo, rep):
+    from ..absdom.poly import to_rf as _t  # noqa: F401
+    R = rep.rule("R-C06-7", "the edge tests of a polygon boundary's normal() are the closeness tests of its membership predicate: the same coordinate against the same value", floor=2,
+                 why="testing an algebraically equal but numerically different quantity (1 - x - y against 0 instead of x + y against 1) changes the tolerance: accepted boundary points match no edge and get 0/0")
+    for mod, cname in (("parallelogram", "ParallelogramBoundary"), ("triangle", "TriangleBoundary")):
+        ci = repo.cls(f"{DOM}.domain2D.{mod}.{cname}")
+        mem, nor = ci.methods.get("_contains"), ci.methods.get("normal")
+        if mem is None or nor is None:
+            raise AnalysisError(f"{cname}._contains / normal vanished")
+        rep.saw(mem), rep.saw(nor)
+        a, b = _edge_tests(repo, ci, mem), _edge_tests(repo, ci, nor)
+        if not a or not b:
+            rep.undecided(R, nor.site(), nor.fq, "edge tests of membership and normal extractable", f"membership {a}, normal {b}")
+            continue
+        rep.check(R, a == b, nor.site(), nor.fq, f"normal() tests exactly {sorted(a)}", f"normal tests {sorted(b)}", f"{sorted(b)} vs {sorted(a)}")
+
+
 def run(repo: Repo, rep):
+    r7_edge_agreement(repo, rep)
     r6_edge_tests(repo, rep)
     r1_boolean(repo, rep)
     r2_r3_edges(repo, rep)
